@@ -94,6 +94,7 @@ func runC03(c *Ctx) {
 	// a killed follower restarts without manual intervention: the resume validation
 	// accepts every sidecar value the follower can have written (shared with C16)
 	c16Resume(c)
+	createTruncRule(c, "R7-staging-open-replaces-leftover")
 
 	// R1b who-may-create
 	{
@@ -476,4 +477,25 @@ func isParamValue(v ssa.Value) bool {
 		}
 	}
 	return false
+}
+
+// createTruncRule: a file opened for writing with O_CREATE under a deterministic name
+// replaces what a previous (failed or killed) run left there: O_TRUNC, or O_APPEND for
+// logs, or O_EXCL for names that are unique by construction.  Without it the stale tail
+// of a longer leftover survives behind the new content.
+func createTruncRule(c *Ctx, rule string) {
+	const oWronly, oRdwr, oAppend, oCreate, oExcl, oTrunc = 0x1, 0x2, 0x400, 0x40, 0x80, 0x200
+	n := 0
+	for _, fn := range c.P.ProdFuncs() {
+		for _, call := range callsTo(fn, nameIs("os.OpenFile")) {
+			fl, ok := constInt(call.Common().Args[1])
+			if !ok || fl&oCreate == 0 || fl&(oWronly|oRdwr) == 0 {
+				continue
+			}
+			n++
+			c.check(fl&(oTrunc|oAppend|oExcl) != 0, rule, fnName(fn)+": os.OpenFile(O_CREATE, write) replaces or appends to an existing file explicitly", c.pos(call), "O_TRUNC, O_APPEND or O_EXCL present",
+				"a file is created for writing without O_TRUNC: the tail of a longer leftover of an earlier, failed attempt stays behind the new content (for a WAL being reassembled: valid frames of a later state)")
+		}
+	}
+	c.floor(rule, n, 2, "os.OpenFile(O_CREATE|write) sites with constant flags")
 }
